@@ -165,13 +165,69 @@ class LRU(VC):
                 "key": nm(self.key.t), "value": nm(self.value.t), "default": nm(self.default.t)}
 
     def replay(self, w):
-        return replay_lru(w)
+        v, d = replay_lru(w)
+        if not v:
+            v2, d2 = replay_history(w)
+            if v2:
+                return v2, d2
+        return v, d
+
+
+def replay_history(w):
+    """Structural obligations (aliases, lock, fresh objects) have no model; replay a fixed family of
+    operation histories on a fresh / copied / unpickled real cache against the reference map."""
+    import pickle, itertools, threading
+    from jinja2.utils import LRUCache
+    ops = [("set", 1), ("set", 2), ("get", 1), ("set", 3), ("get", 2), ("del", 1), ("set", 4), ("set", 5), ("get", 3), ("clear", 0), ("set", 6)]
+    for how in ("fresh", "copy", "pickle"):
+        for cap in (1, 2, 3):
+            c = LRUCache(cap)
+            order, val = [], {}
+            for n, (op, k) in enumerate(ops):
+                if n == 4 and how == "copy":
+                    c = c.copy()
+                if n == 4 and how == "pickle":
+                    c = pickle.loads(pickle.dumps(c))
+                try:
+                    if op == "set":
+                        c[k] = k * 10
+                    elif op == "get":
+                        c.get(k)
+                    elif op == "del":
+                        if k in c:
+                            del c[k]
+                    else:
+                        c.clear()
+                except Exception as ex:
+                    return (True, f"{how} cap={cap} op#{n} {op}({k}) raised {type(ex).__name__}: {ex}")
+                if op == "set":
+                    if k in val:
+                        order.remove(k)
+                    elif len(order) == cap:
+                        del val[order.pop(0)]
+                    order.append(k)
+                    val[k] = k * 10
+                elif op == "get" and k in val:
+                    order.remove(k)
+                    order.append(k)
+                elif op == "del" and k in val:
+                    order.remove(k)
+                    del val[k]
+                elif op == "clear":
+                    order, val = [], {}
+                if list(c._queue) != order or dict(c._mapping) != val:
+                    return (True, f"{how} cap={cap} after op#{n} {op}({k}): real=({list(c._queue)},{dict(c._mapping)}) reference=({order},{val})")
+                if not isinstance(c._wlock, type(threading.Lock())):
+                    return (True, "_wlock is not a lock")
+    return (False, "fixed histories agree with the reference map (the failed obligation is structural: see verifier output)")
 
 
 def replay_lru(w):
     """Run the real LRUCache and the reference map (A.4) on the witness state and compare."""
     import copy
     from jinja2.utils import LRUCache
+    if w.get("method") == "history":
+        return replay_history(w)
     cap = max(1, int(w["capacity"]))
     c = LRUCache(cap)
     order = list(w["queue"])[:cap]
@@ -442,7 +498,364 @@ class DelItem(LRU):
     posts = [("result", p_result), ("absent_state_unchanged", p_absent), ("preserves_RI", p_ri), ("view", p_view), ("lock_discipline", p_lock)]
 
 
-TASKS = [GetItem(), SetItem(), DelItem()]
+class Get(GetItem):
+    """get(key, default): reference `get` = refresh when present, default otherwise; touches the
+    state only through self[key]."""
+    method = "get"
+
+    def args(self):
+        return [self.pre.ref, self.key, self.default]
+
+    def p_result(self, pre_st, out):
+        p = self.pre
+        present = z3.Select(p.dom, self.key.t)
+        if out.raised:
+            return False
+        return z3.If(present, to_term(out.value, "obj") == z3.Select(p.val, self.key.t), to_term(out.value, "obj") == self.default.t)
+
+    def p_absent(self, pre_st, out):
+        return z3.Implies(z3.Not(z3.Select(self.pre.dom, self.key.t)), unchanged(self.pre, out.st))
+
+    def p_recency(self, pre_st, out):
+        f = GetItem.p_recency(self, pre_st, out)
+        return z3.Implies(z3.Select(self.pre.dom, self.key.t), f)
+
+    posts = [("preserves_RI", GetItem.p_ri), ("result", p_result), ("absent_state_unchanged", p_absent),
+             ("recency_and_frame", p_recency), ("lock_discipline", GetItem.p_lock)]
+
+
+class SetDefault(LRU):
+    method = "setdefault"
+
+    def args(self):
+        return [self.pre.ref, self.key, self.default]
+
+    def p_raises_nothing(self, pre_st, out):
+        return out.returned
+
+    def p_result(self, pre_st, out):
+        if out.raised:
+            return None
+        p = self.pre
+        present = z3.Select(p.dom, self.key.t)
+        return to_term(out.value, "obj") == z3.If(present, z3.Select(p.val, self.key.t), self.default.t)
+
+    def p_ri(self, pre_st, out):
+        if out.raised:
+            return None
+        p = self.pre
+        key = self.key.t
+        present = z3.Select(p.dom, key)
+        full = p.n == p.c
+        i0 = p.idx(key)
+        k = z3.Const(fresh_name("wk"), Obj)
+        w = z3.Function(fresh_name("w"), Obj, I_)
+        hq, hm, h = post_state(p, out.st)
+        arr, n, dom, val, size = as_terms(hq, hm)
+        defn = z3.ForAll([k], w(k) == z3.If(k == key, n - 1,
+                                           z3.If(present, z3.If(p.idx(k) < i0, p.idx(k), p.idx(k) - 1),
+                                                 z3.If(full, p.idx(k) - 1, p.idx(k)))))
+        return z3.Implies(defn, z3.And(ri_post(p, out.st, w), aliases_ok(p, out.st)))
+
+    def p_view(self, pre_st, out):
+        if out.raised:
+            return None
+        p = self.pre
+        key = self.key.t
+        hq, hm, h = post_state(p, out.st)
+        arr, n, dom, val, size = as_terms(hq, hm)
+        present = z3.Select(p.dom, key)
+        evict = z3.And(z3.Not(present), p.n == p.c)
+        k = z3.Const(fresh_name("k"), Obj)
+        return z3.And(
+            z3.Select(dom, key), z3.Select(arr, n - 1) == key,
+            z3.Select(val, key) == z3.If(present, z3.Select(p.val, key), self.default.t),
+            z3.ForAll([k], z3.Implies(k != key, z3.Select(dom, k) == z3.And(z3.Select(p.dom, k), z3.Not(z3.And(evict, k == z3.Select(p.arr, 0)))))),
+            z3.ForAll([k], z3.Implies(z3.And(k != key, z3.Select(dom, k)), z3.Select(val, k) == z3.Select(p.val, k))),
+        )
+
+    def p_lock(self, pre_st, out):
+        return lock_discipline(self.pre, out)
+
+    posts = [("raises_nothing", p_raises_nothing), ("result", p_result), ("preserves_RI", p_ri), ("view", p_view), ("lock_discipline", p_lock)]
+
+
+class Contains(LRU):
+    method = "__contains__"
+
+    def args(self):
+        return [self.pre.ref, self.key]
+
+    def p_result(self, pre_st, out):
+        if out.raised:
+            return False
+        return to_term(out.value, "bool") == z3.Select(self.pre.dom, self.key.t)
+
+    def p_pure(self, pre_st, out):
+        return z3.And(unchanged(self.pre, out.st), aliases_ok(self.pre, out.st))
+
+    def p_atomic(self, pre_st, out):
+        """one dictionary membership test, no write, no other read (GIL-atomic)"""
+        evs = [e for e in out.st.trace if e.kind in ("read", "write")]
+        return len(evs) == 1 and evs[0].name == "dict.__contains__" and evs[0].args[0] == self.pre.m
+
+    posts = [("result", p_result), ("no_reorder", p_pure), ("single_atomic_read", p_atomic)]
+
+
+class Len(LRU):
+    method = "__len__"
+
+    def p_result(self, pre_st, out):
+        if out.raised:
+            return False
+        return to_term(out.value, "int") == self.pre.n
+
+    def p_pure(self, pre_st, out):
+        return z3.And(unchanged(self.pre, out.st), not any(e.kind == "write" for e in out.st.trace))
+
+    posts = [("result", p_result), ("no_reorder", p_pure)]
+
+
+class Clear(LRU):
+    method = "clear"
+
+    def p_post(self, pre_st, out):
+        if out.raised:
+            return False
+        p = self.pre
+        hq, hm, h = post_state(p, out.st)
+        arr, n, dom, val, size = as_terms(hq, hm)
+        k = z3.Const(fresh_name("k"), Obj)
+        return z3.And(n == 0, size == 0, z3.ForAll([k], z3.Not(z3.Select(dom, k))), aliases_ok(p, out.st),
+                      to_term(h.fields["capacity"], "int") == p.c)
+
+    def p_lock(self, pre_st, out):
+        return lock_discipline(self.pre, out) and any(e.kind == "write" for e in out.st.trace)
+
+    posts = [("empties_and_RI", p_post), ("lock_discipline", p_lock)]
+
+
+def listing(out):
+    """result of a listing method as (arr, n, kind)"""
+    v = out.value
+    if isinstance(v, Ref):
+        h = out.st.get(v)
+        from pyvc.values import HIter
+        if isinstance(h, HIter):
+            if isinstance(h.items, SSeq):
+                return h.items.arr, h.items.n, h.items.k
+            raise ValueError("concrete iterator")
+        return h.arr, h.n, h.k
+    if isinstance(v, SSeq):
+        return v.arr, v.n, v.k
+    raise ValueError(f"not a listing: {v!r}")
+
+
+class Listing(LRU):
+    """items/keys/values/__iter__/__reversed__: most-recent-first (resp. oldest first) listing of
+    the view; state unchanged."""
+    what = "keys"
+    rev = True
+
+    def p_result(self, pre_st, out):
+        if out.raised:
+            return False
+        p = self.pre
+        arr, n, kind = listing(out)
+        j = z3.Int(fresh_name("j"))
+        src = (p.n - 1 - j) if self.rev else j
+        keyj = z3.Select(p.arr, src)
+        if self.what == "keys":
+            body = z3.Select(arr, j) == keyj
+        elif self.what == "values":
+            body = z3.Select(arr, j) == z3.Select(p.val, keyj)
+        else:
+            body = z3.And(z3.Select(arr[0], j) == keyj, z3.Select(arr[1], j) == z3.Select(p.val, keyj))
+        return z3.And(n == p.n, z3.ForAll([j], z3.Implies(z3.And(0 <= j, j < p.n), body)))
+
+    def p_pure(self, pre_st, out):
+        return z3.And(unchanged(self.pre, out.st), aliases_ok(self.pre, out.st), not any(e.kind == "write" and e.args[0] in (self.pre.q, self.pre.m) for e in out.st.trace))
+
+    posts = [("listing", p_result), ("state_unchanged", p_pure)]
+
+
+class Items(Listing):
+    method, what, rev = "items", "items", True
+
+
+class Values(Listing):
+    method, what, rev = "values", "values", True
+
+    def configure(self, I):
+        super().configure(I)
+
+
+class Keys(Listing):
+    method, what, rev = "keys", "keys", True
+
+
+class Iter(Listing):
+    method, what, rev = "__iter__", "keys", True
+
+
+class Reversed(Listing):
+    method, what, rev = "__reversed__", "keys", False
+
+
+class Copy(LRU):
+    method = "copy"
+
+    def p_post(self, pre_st, out):
+        if out.raised:
+            return False
+        p = self.pre
+        r = out.value
+        if not isinstance(r, Ref) or r == p.ref:
+            return False
+        h = out.st.get(r)
+        q, m = h.fields.get("_queue"), h.fields.get("_mapping")
+        if q in (p.q, None) or m in (p.m, None) or q.id not in out.st.allocated or m.id not in out.st.allocated:
+            return False  # shares the deque / dict with the source
+        for nm, meth in (("_popleft", "popleft"), ("_pop", "pop"), ("_remove", "remove"), ("_append", "append")):
+            b = h.fields.get(nm)
+            if not (isinstance(b, BoundMethod) and b.recv == q and b.name == meth):
+                return False
+        lk = h.fields.get("_wlock")
+        if not (isinstance(lk, Ref) and lk != p.lock and isinstance(out.st.get(lk), HLock)):
+            return False
+        arr, n, dom, val, size = as_terms(out.st.get(q), out.st.get(m))
+        j = z3.Int(fresh_name("j"))
+        k = z3.Const(fresh_name("k"), Obj)
+        return z3.And(
+            to_term(h.fields["capacity"], "int") == p.c, n == p.n, size == p.size,
+            z3.ForAll([j], z3.Implies(z3.And(0 <= j, j < n), z3.Select(arr, j) == z3.Select(p.arr, j))),
+            z3.ForAll([k], z3.Select(dom, k) == z3.Select(p.dom, k)),
+            z3.ForAll([k], z3.Implies(z3.Select(dom, k), z3.Select(val, k) == z3.Select(p.val, k))),
+        )
+
+    def p_src(self, pre_st, out):
+        return z3.And(unchanged(self.pre, out.st), aliases_ok(self.pre, out.st))
+
+    posts = [("fresh_equal_copy_with_RI", p_post), ("source_unchanged", p_src)]
+
+
+class SetState(LRU):
+    """__setstate__(__getstate__()) on a fresh instance: same view, RI re-established
+    (aliases re-bound to the restored deque, new lock).  pickle itself is a dependency."""
+    method = "__setstate__"
+
+    def setup(self, I, st):
+        self.pre = Cache(st)
+        # target object as created by object.__new__ during unpickling: no attributes
+        self.new = st.alloc(HObj(U.LRUCache), initial=True)
+        self.key = Sym(z3.Const("key", Obj), "obj")
+        self.value = Sym(z3.Const("value", Obj), "obj")
+        self.default = Sym(z3.Const("default", Obj), "obj")
+        # state dict as produced by the real __getstate__ (run here on the pre-state)
+        clo = I.closure_of_function(U.LRUCache.__getstate__)
+        rs = I.call_closure(st, clo, [self.pre.ref], {})
+        assert len(rs) == 1
+        self.state = rs[0][1]
+        return [self.new, self.state], {}
+
+    def configure(self, I):
+        super().configure(I)
+        I.specs["LRUCache.__dict__.update"] = None
+
+    def p_post(self, pre_st, out):
+        if out.raised:
+            return False
+        p = self.pre
+        h = out.st.get(self.new)
+        q, m = h.fields.get("_queue"), h.fields.get("_mapping")
+        if q is None or m is None:
+            return False
+        for nm, meth in (("_popleft", "popleft"), ("_pop", "pop"), ("_remove", "remove"), ("_append", "append")):
+            b = h.fields.get(nm)
+            if not (isinstance(b, BoundMethod) and b.recv == q and b.name == meth):
+                return False
+        lk = h.fields.get("_wlock")
+        if not (isinstance(lk, Ref) and isinstance(out.st.get(lk), HLock) and lk.id in out.st.allocated):
+            return False
+        arr, n, dom, val, size = as_terms(out.st.get(q), out.st.get(m))
+        j = z3.Int(fresh_name("j"))
+        k = z3.Const(fresh_name("k"), Obj)
+        return z3.And(
+            to_term(h.fields["capacity"], "int") == p.c, n == p.n, size == p.size,
+            z3.ForAll([j], z3.Implies(z3.And(0 <= j, j < n), z3.Select(arr, j) == z3.Select(p.arr, j))),
+            z3.ForAll([k], z3.Select(dom, k) == z3.Select(p.dom, k)),
+            z3.ForAll([k], z3.Implies(z3.Select(dom, k), z3.Select(val, k) == z3.Select(p.val, k))),
+        )
+
+    def concretize(self, model, pre_st, out):
+        w = LRU.concretize(self, model, pre_st, out)
+        w["method"] = "pickle"
+        return w
+
+    posts = [("restores_view_and_RI", p_post)]
+
+
+class Init(VC):
+    """LRUCache(capacity): empty view, RI."""
+    prop = "C26"
+    target = "jinja2.utils:LRUCache.__init__"
+
+    def __init__(self):
+        super().__init__("C26", "C26.LRUCache.__init__")
+
+    def configure(self, I):
+        I.inline.update({"jinja2.utils:LRUCache._postinit"})
+
+    def setup(self, I, st):
+        self.obj = st.alloc(HObj(U.LRUCache), initial=True)
+        self.cap = Sym(z3.Int("capacity"), "int")
+        st.assume(self.cap.t >= 1)
+        return [self.obj, self.cap], {}
+
+    def p_post(self, pre_st, out):
+        if out.raised:
+            return False
+        h = out.st.get(self.obj)
+        q, m = h.fields.get("_queue"), h.fields.get("_mapping")
+        if q is None or m is None:
+            return False
+        hq, hm = out.st.get(q), out.st.get(m)
+        if not (hq.concrete and hq.items == [] and hq.tag == "deque" and hm.concrete and hm.items == {}):
+            return False
+        for nm, meth in (("_popleft", "popleft"), ("_pop", "pop"), ("_remove", "remove"), ("_append", "append")):
+            b = h.fields.get(nm)
+            if not (isinstance(b, BoundMethod) and b.recv == q and b.name == meth):
+                return False
+        lk = h.fields.get("_wlock")
+        return isinstance(lk, Ref) and isinstance(out.st.get(lk), HLock) and to_term(h.fields["capacity"], "int") == self.cap.t
+
+    posts = [("empty_with_RI", p_post)]
+
+    def concretize(self, model, pre_st, out):
+        return {"method": "history"}
+
+    def replay(self, w):
+        return replay_history(w)
+
+
+def table_aliases(task, tier, seed):
+    """__copy__ is copy; the class is registered as a MutableMapping."""
+    from collections import abc
+    rs = []
+    ok = U.LRUCache.__dict__.get("__copy__") is U.LRUCache.__dict__.get("copy")
+    rs.append(Res("C26.LRUCache.__copy__.is_copy", "discharged" if ok else "refuted", "table", 0, "" if ok else "__copy__ is not copy", "table", {"method": "copy", "capacity": 1, "queue": [], "values": {}, "key": 0, "value": 0, "default": 0}))
+    args_ok = True
+    try:
+        c = U.LRUCache(3)
+        args_ok = c.__getnewargs__() == (3,)
+    except Exception:
+        args_ok = False
+    rs.append(Res("C26.LRUCache.__getnewargs__", "discharged" if args_ok else "refuted", "table", 0, "", "table"))
+    return rs
+
+
+TASKS = [GetItem(), SetItem(), DelItem(), Get(), SetDefault(), Contains(), Len(), Clear(), Items(), Values(), Keys(),
+         Iter(), Reversed(), Copy(), SetState(), Init(), FnTask("C26", "C26.LRUCache.tables", table_aliases, "table", replay_lru)]
 
 META = {
     "level": "proof",
